@@ -2,7 +2,7 @@
    ExtrOcamlBasic: bool, option, unit, list, prod, sumbool -> OCaml's own;
    ExtrOcamlString: ascii -> char, string -> char list.  No Extract Constant. N, Z,
    positive, nat stay the extracted inductives. *)
-From ChessV Require Import Bits Types Board Moves Rays MoveGen Eval Abs San Search Game Regex.
+From ChessV Require Import Bits Types Board Moves Rays MoveGen Eval Abs San Search Game Regex Pvp.
 From ChessV Require Import Magic UciProofs UciGen InvProofs InvProofs2 SuccProofs SanProofs EvalProofs2 SoundB.
 From ChessV.gen Require Import Magics.
 From ChessV Require Rules.
@@ -26,6 +26,7 @@ Extraction "model.ml"
   san_all san_label spec_label to_uci from_uci
   mm root_values root_values_ab search ab sort_moves
   apply_by_coords apply_by_notation engine_select book_next BOOK book_line_of
+  parse_input exec_command pvp_step pvp_run
   full_match COORDINATE_RE ALGEBRAIC_RE
   cmove_eqb squares bits_of popcount
   (* decidable hypotheses of the property theorems, evaluated on every scenario node *)
